@@ -19,8 +19,21 @@ def numel(sh):
 
 def gen_case(seed):
     g = G(SeedSource(seed), Opts(gauss=True, max_names=4))
-    kind = g.pick(["delta", "delta", "tensor_sample", "tensor_sample", "tensor_sample", "gauss_sample", "gauss_sample", "gauss_reparam", "delta_terms", "delta_terms", "delta_terms", "mixture_sample", "mixture_sample"])
+    kind = g.pick(["delta", "delta", "tensor_sample", "tensor_sample", "tensor_sample", "gauss_sample", "gauss_sample", "gauss_reparam", "delta_terms", "delta_terms", "delta_terms", "mixture_sample", "mixture_sample", "delta_gauss", "delta_gauss"])
     names = sorted(g.sizes)
+    if kind == "delta_gauss":
+        # a Delta over several real inputs of a Gaussian (terms listed in any order, points batched or not), some real
+        # inputs of the Gaussian left free: integrate / reduce / substitute must evaluate the Gaussian at the point
+        leaf = gauss_leaf(g, set(g.sizes), nreal=g.pick([2, 3, 3, 4]), max_dim=6)
+        reals = [n for n, sh in leaf[2]]
+        bound = g.perm(g.subset(reals, 1 if len(reals) < 3 else 2, max(1, len(reals) - (1 if g.chance(0.8) else 0))))
+        terms = []
+        for n in bound:
+            pn = g.subset(names, 0, 1)
+            ins = tuple((a, g.sizes[a]) for a in pn)
+            cnt = g.numel([s_ for _, s_ in ins]) * numel(REAL_POOL[n])
+            terms.append((n, ("ten", ins, tuple(REAL_POOL[n]), "real", g.expand(WVALS, cnt), False)))
+        return dict(kind=kind, gauss=leaf, terms=terms, how=g.pick(["integrate", "integrate", "reduce", "subs"]), mode=g.pick(["eager", "eager", "lazy"]), one_delta=g.chance(0.7))
     if kind == "delta_terms":
         # point masses inside the generated term language: Delta + f in both orders, several Deltas (one point a function of
         # another's variable), reductions and Integrate over all or some of the Delta's variables, substitution, Independent
@@ -47,7 +60,8 @@ def gen_case(seed):
         fnames = g.subset(names, 0, 2)
         fins = [(n, g.sizes[n]) for n in fnames]
         # f over (v, other names): for real v, f is affine/quadratic in v; for integer v a table
-        ftab = g.expand(VALS[:6], g.numel([s for n, s in fins]) * (size or 1))
+        # (integer-valued v: some cells of the table are the semiring zero -inf, also at the Delta's point)
+        ftab = g.expand(VALS[:6] + ([float("-inf")] * 2 if not real_point and g.chance(0.5) else []), g.numel([s for n, s in fins]) * (size or 1))
         return dict(kind=kind, real_point=real_point, shape=shape, size=size, batch=bins, point=list(point), ld_batch=[(n, g.sizes[n]) for n in ld_batch],
                     ld=list(ld), fins=fins, ftab=list(ftab), lazy_point=g.chance(0.3), how=g.pick(["subs", "reduce", "integrate"]), unit=g.chance(0.5))
     if kind == "tensor_sample":
@@ -272,6 +286,79 @@ class C14(Prop):
                 got = eval_at(r, pt)
                 if not close(got, want):
                     raise Violation("delta-" + how, f"at {pt}: funsor {np.asarray(got).tolist()} expected {want}: {self.describe(case)}")
+        stt.count("completed")
+        stt.mark_nontrivial(case_hash(case))
+
+    def check_delta_gauss(self, case, stt):
+        import funsor.interpretations as I
+        from funsor import Reals, Variable, ops
+        from funsor.delta import Delta
+        from funsor.integrate import Integrate
+        from funsor.interpreter import reinterpret
+        from funsor.terms import Number
+        from vf.build import build, eval_at
+        from vf.lang import int_points, real_points
+
+        leaf = case["gauss"]
+        terms = [(n, pt) for n, pt in case["terms"]]
+        how = case["how"]
+        stt.count("delta_gauss:" + how + ":" + case["mode"])
+
+        def run():
+            g = build(leaf)
+            pts = [(n, build(pt)) for n, pt in terms]
+            if how == "subs":
+                from collections import OrderedDict
+
+                return g(**OrderedDict(pts))
+            zero = Number(0.0)
+            if case["one_delta"]:
+                d = Delta(tuple((n, (p_, zero)) for n, p_ in pts))
+            else:
+                d = None
+                for n, p_ in pts:
+                    d1 = Delta(n, p_, zero)
+                    d = d1 if d is None else d + d1
+            vs = frozenset(Variable(n, Reals[tuple(REAL_POOL[n])]) for n, p_ in pts)
+            if how == "integrate":
+                return Integrate(d, g, vs)
+            return (d + g).reduce(ops.logaddexp, vs)
+
+        try:
+            if case["mode"] == "eager":
+                r = run()
+            else:
+                with I.lazy:
+                    t = run()
+                r = reinterpret(t)
+        except Exception as e:
+            raise Decline("delta-gauss-raised:" + innermost_funsor_frame(e))
+        bound = {n for n, pt in terms}
+        if bound & set(r.inputs):
+            raise Violation("delta-gauss-var-not-eliminated", f"{how}: inputs {list(r.inputs)}: {self.describe(case)}")
+        inputs = dict(typeof(leaf)[0])
+        for n, pt in terms:
+            inputs.update(typeof(pt)[0])
+        free = {n: d for n, d in inputs.items() if n not in bound}
+        if not set(r.inputs) <= set(free):
+            raise Violation("delta-gauss-inputs", f"{how}: inputs {list(r.inputs)} not among {sorted(free)}: {self.describe(case)}")
+        orc = Oracle()
+        for rp in real_points(free, 2):
+            for ip in int_points(free):
+                env = dict(rp)
+                env.update(ip)
+                env2 = dict(env)
+                for n, pt in terms:
+                    env2[n] = np.asarray(orc.ev(pt, env), dtype=float)
+                want = float(orc.ev(leaf, env2))
+                try:
+                    got = eval_at(r, {k: v for k, v in env.items() if k in r.inputs})
+                except Decline:
+                    raise
+                except Exception as e:
+                    raise Decline("delta-gauss-binding-raised:" + innermost_funsor_frame(e))
+                if not close(got, want):
+                    raise Violation("delta-gauss-" + how, f"at {env}: funsor {np.asarray(got).tolist()} Gaussian at the point {want}: {self.describe(case)}")
         stt.count("completed")
         stt.mark_nontrivial(case_hash(case))
 
